@@ -284,4 +284,57 @@ theorem lexIdentifierRaw_valid (s rest : List Char) (hs : Spec.validIdent s = tr
         rw [hs_eq]
         simp
 
+theorem leading_head_alts (c : Char) (r : List Char) (hc : isLeading c = true) :
+    lexComment (c :: r) = .error ∧ lexPunctuation (c :: r) = .error ∧ lexTarget (c :: r) = .error ∧
+    lexString (c :: r) = .error ∧ lexOperator (c :: r) = .error ∧ lexVariable (c :: r) = .error := by
+  have hne : ∀ k, isLeading k = false → c ≠ k := fun k hk e => by subst e; simp [hk] at hc
+  have h1 := hne '#' (by decide)
+  have h2 := hne '!' (by decide)
+  have h3 := hne ':' (by decide)
+  have h4 := hne ',' (by decide)
+  have h5 := hne ' ' (by decide)
+  have h6 := hne '\t' (by decide)
+  have h7 := hne '[' (by decide)
+  have h8 := hne '(' (by decide)
+  have h9 := hne ']' (by decide)
+  have h10 := hne ')' (by decide)
+  have h11 := hne ';' (by decide)
+  have h12 := hne '\n' (by decide)
+  have h13 := hne '\r' (by decide)
+  have h14 := hne '@' (by decide)
+  have h15 := hne '"' (by decide)
+  have h16 := hne '^' (by decide)
+  have h17 := hne '-' (by decide)
+  have h18 := hne '+' (by decide)
+  have h19 := hne '/' (by decide)
+  have h20 := hne '*' (by decide)
+  have h21 := hne '%' (by decide)
+  refine ⟨?_, ?_, ?_, ?_, ?_, ?_⟩
+  · unfold lexComment; split <;> simp_all
+  · unfold lexPunctuation
+    split <;> (try simp_all)
+    unfold recognizeNewlines
+    split <;> simp_all
+  · unfold lexTarget; split <;> simp_all
+  · simp [lexString, QV.C07.lexString, QV.C07.surrounded, h15]
+  · unfold lexOperator; split <;> simp_all
+  · unfold lexVariable; split <;> simp_all
+
+
+theorem toToken_not_identifier (k : KeywordToken) (t : List Char) : k.toToken ≠ .identifier t := by
+  cases k <;> simp [KeywordToken.toToken]
+
+theorem lowerAscii_eq (c : Char) : lowerAscii c = Spec.lowerChar c := rfl
+
+
+theorem lexItem_leading_head (c : Char) (cs : List Char) (hc : isLeading c = true) :
+    lexItem (c :: cs) = lexToken (c :: cs) := by
+  have hne : ∀ k, isLeading k = false → c ≠ k := fun k hk e => by subst e; simp [hk] at hc
+  have h1 := hne ' ' (by decide)
+  have h2 := hne '\t' (by decide)
+  have hi : lexIndent (c :: cs) = .error := by
+    unfold lexIndent; split <;> simp_all
+  have hb : (c == ' ') = false := by simp [h1]
+  simp [lexItem, hi, Res.orElse, List.dropWhile, hb]
+
 end QV.C06
